@@ -2,8 +2,8 @@ SPECIFICATION GSpec
 CONSTANTS
   Mode = "struct"
   K = 2
-  ShapeLo = 1
-  ShapeHi = 1
+  ShapeSet = {1}
   Prefixed = FALSE
+  FamSet = {"v1", "sys", "v2"}
 INVARIANT Emit
 CHECK_DEADLOCK FALSE
